@@ -84,6 +84,23 @@ func computeLinkerVariableStrings(pkg *types.Package) (map[*types.Var]string, er
 	return linkerVariableStrings, nil
 }
 
+// linkerVariableNames returns the sorted "pkgpath.name" targets of all
+// -ldflags=-X flags; see [computeLinkerVariableStrings].
+func linkerVariableNames() []string {
+	ldflags, err := cmdgoQuotedSplit(flagValue(sharedCache.ForwardBuildFlags, "-ldflags"))
+	if err != nil {
+		return nil // reported by computeLinkerVariableStrings
+	}
+	var names []string
+	for val := range flagValues(ldflags, "-X") {
+		if fullName, _, found := strings.Cut(val, "="); found {
+			names = append(names, fullName)
+		}
+	}
+	slices.Sort(names)
+	return slices.Compact(names)
+}
+
 // typecheck type-checks the package, populating only the [types.Info] maps that
 // garble actually consumes. Types, Defs, and Uses drive the renaming and literal
 // passes; Implicits is read by [types.Info.PkgNameOf]. Selections and Instances
